@@ -10,7 +10,9 @@ import (
 	"regexp"
 	"strconv"
 	"strings"
+	"syscall"
 	"testing"
+	"time"
 
 	"github.com/reactivego/ivg/decode"
 	"pgregory.net/rapid"
@@ -718,6 +720,51 @@ func checkTool(c ToolCase) error {
 		stdout, serr := exec.Command(tool, src).Output()
 		if serr != nil || !bytes.Equal(stdout, want) {
 			return harness.Violatef("c11/tool-stdout", "disivg to stdout differs from Disassemble for input %d (%v)", i, serr)
+		}
+		// the same bytes read from a named pipe (the size the file system reports is not the
+		// length of the content)
+		fifo := src + ".fifo"
+		os.Remove(fifo)
+		if syscall.Mkfifo(fifo, 0o600) == nil {
+			done := make(chan struct{})
+			go func() {
+				defer close(done)
+				if f, err := os.OpenFile(fifo, os.O_WRONLY, 0); err == nil {
+					f.Write(in)
+					f.Close()
+				}
+			}()
+			cmd := exec.Command(tool, fifo)
+			stdout, serr := cmd.Output()
+			select {
+			case <-done:
+			case <-time.After(5 * time.Second):
+				// the tool never opened the pipe: unblock the writer
+				if f, err := os.OpenFile(fifo, os.O_RDONLY|syscall.O_NONBLOCK, 0); err == nil {
+					f.Close()
+				}
+				<-done
+			}
+			if serr != nil || !bytes.Equal(stdout, want) {
+				return harness.Violatef("c11/tool-stdout", "disivg reading input %d from a named pipe: differs from Disassemble (%v)", i, serr)
+			}
+			os.Remove(fifo)
+		}
+		// the same file named by a path that steps back out of a symbolic link to another
+		// directory: a/link/../icon is b/icon, not a/icon
+		{
+			a, b := filepath.Join(dir, "a"), filepath.Join(dir, "b")
+			os.MkdirAll(a, 0o755)
+			os.MkdirAll(filepath.Join(b, "sub"), 0o755)
+			os.WriteFile(filepath.Join(a, "icon.ivg"), []byte{0x89, 'I', 'V', 'G', 0x00, 0x05}, 0o644)
+			os.WriteFile(filepath.Join(b, "icon.ivg"), in, 0o644)
+			os.Remove(filepath.Join(a, "link"))
+			if os.Symlink(filepath.Join(b, "sub"), filepath.Join(a, "link")) == nil {
+				stdout, serr := exec.Command(tool, a+"/link/../icon.ivg").Output()
+				if serr != nil || !bytes.Equal(stdout, want) {
+					return harness.Violatef("c11/tool-stdout", "disivg given a path through a symbolic link and back (a/link/../icon.ivg) for input %d: differs from Disassemble of the file that path names (%v)", i, serr)
+				}
+			}
 		}
 		// the same file named through a symbolic link
 		link := src + ".link"
